@@ -17,7 +17,7 @@
 (***************************************************************************)
 EXTENDS Integers, Sequences, FiniteSets, TLC, NetcodeObs
 
-CONSTANTS Tokens,      \* function token name -> [id, ud, hosts, expire, timeout, sealed, proto, tamper, ok]
+CONSTANTS Tokens,      \* function token name -> [id, ud, hosts, expire, timeout, sealed, proto, tamper, ok (, cproto)]
           Clients,     \* function client name -> [tok, addr]
           MaxClients0, \* max_clients at construction
           ServerAddrs, \* number of public addresses (1..ServerAddrs)
@@ -38,6 +38,10 @@ DLen(kind, seq, plen) ==
 
 NoD == [emit |-> 0, org |-> "none", kind |-> "None", key |-> "none", proto |-> "P", seq |-> 0, len |-> 0, tok |-> "none", cseq |-> 0, cid |-> 0,
         cud |-> 0, ptag |-> 0, plen |-> 0, label |-> "none", nth |-> 0, intact |-> TRUE, h |-> 0, to |-> 0, nonauth |-> FALSE]
+
+\* the protocol id the holder of a token works with is the one in the token's PUBLIC part (client.rs:196, 262, 358); it differs
+\* from the sealed one only for tokens whose public part was tampered with
+CProto(T) == IF "cproto" \in DOMAIN T THEN T.cproto ELSE T.proto
 
 MkD(kind, key, tok, seq, to, x) ==
     [NoD EXCEPT !.kind = kind, !.key = key, !.tok = tok, !.seq = seq, !.to = to, !.label = "emitted",
@@ -249,9 +253,10 @@ DoCUpdate(w, c, dt) ==
         gate == x2.lastSend >= 0 /\ now - x2.lastSend < SEND_RATE
         sends == ~failed /\ ~gate
         to == 100 + T.hostseq[IF x2.hostIdx <= Len(T.hostseq) THEN x2.hostIdx ELSE Len(T.hostseq)]
-        d == CASE x2.state = "Req" -> [MkD("Request", "none", x2.tok, 0, to, X0) EXCEPT !.proto = T.proto]
-               [] x2.state = "Resp" -> MkD("Response", "c2s:" \o x2.tok, x2.tok, x2.seq, to, [X0 EXCEPT !.cseq = x2.cseq, !.cid = x2.ccid, !.cud = x2.ccud])
-               [] OTHER -> MkD("KeepAlive", "c2s:" \o x2.tok, x2.tok, x2.seq, to, X0)
+        d0 == CASE x2.state = "Req" -> MkD("Request", "none", x2.tok, 0, to, X0)
+                [] x2.state = "Resp" -> MkD("Response", "c2s:" \o x2.tok, x2.tok, x2.seq, to, [X0 EXCEPT !.cseq = x2.cseq, !.cid = x2.ccid, !.cud = x2.ccud])
+                [] OTHER -> MkD("KeepAlive", "c2s:" \o x2.tok, x2.tok, x2.seq, to, X0)
+        d == [d0 EXCEPT !.proto = CProto(T)]
         x3 == IF sends THEN [x2 EXCEPT !.lastSend = now, !.seq = @ + 1] ELSE x2
         w1 == [w EXCEPT !.cl[c] = x3]
         e == IF sends THEN Emit(w1, d, c) ELSE [w |-> w1, d |-> NoD]
@@ -260,7 +265,7 @@ DoCUpdate(w, c, dt) ==
 
 ClientProcess(x, d) ==
     IF d.len < 18 \/ d.kind = "Garbage" \/ d.kind = "Request" THEN [x |-> x, some |-> FALSE]
-    ELSE IF ~(d.intact /\ d.key = "s2c:" \o x.tok /\ d.proto = Tokens[x.tok].proto) THEN [x |-> x, some |-> FALSE]
+    ELSE IF ~(d.intact /\ d.key = "s2c:" \o x.tok /\ d.proto = CProto(Tokens[x.tok])) THEN [x |-> x, some |-> FALSE]
     ELSE IF d.kind \in {"KeepAlive", "Payload", "Disconnect"} /\ Already(x.win, x.winMax, d.seq) THEN [x |-> x, some |-> FALSE]
     ELSE LET y == IF d.kind \in {"KeepAlive", "Payload", "Disconnect"} THEN Advance(x, d.seq) ELSE x IN
          CASE d.kind = "Denied" /\ y.state \in {"Req", "Resp"} -> [x |-> [y EXCEPT !.state = "Disc", !.reason = "ConnectionDenied", !.lastRecv = y.now], some |-> FALSE]
@@ -288,7 +293,8 @@ DoCPayload(w, c, tag, plen) ==
     LET x == w.cl[c]
         ok == x.state = "Conn"
         e == IF ok THEN Emit([w EXCEPT !.cl[c].seq = @ + 1, !.cl[c].lastSend = x.now],
-                             MkD("Payload", "c2s:" \o x.tok, x.tok, x.seq, 100 + Tokens[x.tok].hostseq[x.hostIdx], [X0 EXCEPT !.ptag = tag, !.plen = plen]), c)
+                             [MkD("Payload", "c2s:" \o x.tok, x.tok, x.seq, 100 + Tokens[x.tok].hostseq[x.hostIdx], [X0 EXCEPT !.ptag = tag, !.plen = plen])
+                                EXCEPT !.proto = CProto(Tokens[x.tok])], c)
              ELSE [w |-> w, d |-> NoD]
         ev == [ev |-> "cpayload", c |-> c, ptag |-> tag, plen |-> plen, ok |-> ok, d |-> e.d, cs0 |-> CSnap(w, c), cs1 |-> CSnap(e.w, c), panic |-> FALSE]
     IN [w |-> e.w, ev |-> ev]
@@ -296,8 +302,10 @@ DoCPayload(w, c, tag, plen) ==
 DoSPayload(w, id, tag, plen) ==
     LET i == ById(w, id)
         ok == i # 0
+        \* a payload postpones the next keep-alive only once the client confirmed the connection (server.rs:380-384): until then it
+        \* may still be waiting for the keep-alive that tells it that it is connected
         e == IF ok THEN LET c == w.slots[i] IN
-                        Emit([w EXCEPT !.slots[i].seq = @ + 1, !.slots[i].lastSend = w.now],
+                        Emit([w EXCEPT !.slots[i].seq = @ + 1, !.slots[i].lastSend = IF c.confirmed THEN w.now ELSE @],
                              MkD("Payload", "s2c:" \o c.tok, c.tok, c.seq, c.addr, [X0 EXCEPT !.ptag = tag, !.plen = plen]), "S")
              ELSE [w |-> w, d |-> NoD]
         ev == [ev |-> "spayload", id |-> id, ptag |-> tag, plen |-> plen, ok |-> ok, d |-> e.d, snap0 |-> Snap(w), snap1 |-> Snap(e.w), panic |-> FALSE]
@@ -314,7 +322,8 @@ DoSDisconnect(w, id) ==
 DoCDisconnect(w, c) ==
     LET x == w.cl[c]
         e == Emit([w EXCEPT !.cl[c].state = "Disc", !.cl[c].reason = "DisconnectedByClient"],
-                  MkD("Disconnect", "c2s:" \o x.tok, x.tok, x.seq, 100 + Tokens[x.tok].hostseq[IF x.hostIdx <= Len(Tokens[x.tok].hostseq) THEN x.hostIdx ELSE 1], X0), c)
+                  [MkD("Disconnect", "c2s:" \o x.tok, x.tok, x.seq, 100 + Tokens[x.tok].hostseq[IF x.hostIdx <= Len(Tokens[x.tok].hostseq) THEN x.hostIdx ELSE 1], X0)
+                     EXCEPT !.proto = CProto(Tokens[x.tok])], c)
     IN [w |-> e.w, ev |-> [ev |-> "cdisconnect", c |-> c, d |-> e.d, cs0 |-> CSnap(w, c), cs1 |-> CSnap(e.w, c), panic |-> FALSE]]
 
 DoSetMax(w, n) ==
